@@ -127,6 +127,24 @@ func init() {
 			jobs = append(jobs, concJob("BulkRefresh‖InvalidateAll/"+ex, ref, []string{"set 1", "set 2"}, [][]string{{"bulkrefresh 1,2 full"}, {"invall"}}, or, "native", bpb, false, 8, budget, "writes-during-flight"))
 			jobs = append(jobs, concJob("missLoad‖Set;Invalidate/"+ex, plain, nil, [][]string{{"load 1 val"}, {"set 1", "inv 1"}}, or, "native", pb, false, 8, budget))
 		}
+		// many loads in flight at once: the in-flight table itself grows while the calls are registered; writes to
+		// several of the keys during the load must still cancel their installs (coarse: operation granularity, unbounded)
+		for _, v := range []struct {
+			variant string
+			n       int
+		}{{"small", 24}, {"native", 140}} {
+			var ks []string
+			for k := 10; k < 10+v.n; k++ {
+				ks = append(ks, fmt.Sprint(k))
+			}
+			bulk := "bulk " + strings.Join(ks, ",") + " full"
+			writer := []string{"awaitload"}
+			for i, k := range []int{10, 11, 13, 10 + v.n/2, 10 + v.n/2 + 1, 10 + v.n - 3, 10 + v.n - 1} {
+				writer = append(writer, []string{"set %d", "inv %d", "cw %d"}[i%3])
+				writer[i+1] = fmt.Sprintf(writer[i+1], k)
+			}
+			jobs = append(jobs, concJob("BulkGet(in-flight table grows)‖writers/"+v.variant, CacheCfg{Executor: "caller"}, nil, [][]string{{bulk}, writer}, or, v.variant, 12, true, 2, budget, "writes-during-flight"))
+		}
 		return jobs
 	}
 
